@@ -7,6 +7,23 @@ use rand::{rngs::StdRng, RngCore, SeedableRng};
 
 pub use crate::math::{bits_iter::BitsIter, count_bits, phase_from_rad, rotate};
 
+/// When set, every `next_u64` of [`VerifRng`] on every thread returns this word: the draws
+/// of a parallel section become independent of how the work is scheduled.
+static CONST_ON: std::sync::atomic::AtomicBool = std::sync::atomic::AtomicBool::new(false);
+static CONST_WORD: std::sync::atomic::AtomicU64 = std::sync::atomic::AtomicU64::new(0);
+
+/// Install (or remove) a process-wide constant word for all draws.
+pub fn constant(word: Option<u64>) {
+    use std::sync::atomic::Ordering::SeqCst;
+    match word {
+        Some(w) => {
+            CONST_WORD.store(w, SeqCst);
+            CONST_ON.store(true, SeqCst);
+        }
+        None => CONST_ON.store(false, SeqCst),
+    }
+}
+
 thread_local! {
     static SEEDED: RefCell<Option<StdRng>> = RefCell::new(None);
     static SCRIPT: RefCell<std::collections::VecDeque<u64>> = RefCell::new(Default::default());
@@ -39,6 +56,9 @@ impl RngCore for VerifRng {
     }
 
     fn next_u64(&mut self) -> u64 {
+        if CONST_ON.load(std::sync::atomic::Ordering::SeqCst) {
+            return CONST_WORD.load(std::sync::atomic::Ordering::SeqCst);
+        }
         if let Some(w) = SCRIPT.with(|s| s.borrow_mut().pop_front()) {
             return w;
         }
